@@ -197,7 +197,7 @@ def Stmt.wt (vtys : List Ty) (ret : Ty) : Bool → Nat → Stmt → Option Nat
   | _, nd, .assign i t e =>
     if i < nd ∧ vtys[i]? = some t ∧ e.ty = t ∧ e.wt (vtys.take nd) = true then some nd else none
   | _, nd, .incdec i t _ =>
-    if i < nd ∧ vtys[i]? = some t ∧ t ≠ .bool then some nd else none
+    if i < nd ∧ vtys[i]? = some t then some nd else none
   | _, nd, .expr e => if e.wt (vtys.take nd) = true then some nd else none
   | _, nd, .ret e => if e.ty = ret ∧ e.wt (vtys.take nd) = true then some nd else none
   | lp, nd, .seq a b =>
